@@ -85,13 +85,13 @@ func (t Tuple) M__iter__() (Object, error) {
 
 func (t Tuple) M__getitem__(key Object) (Object, error) {
 	if slice, ok := key.(*Slice); ok {
-		start, stop, step, slicelength, err := slice.GetIndices(len(t))
+		start, _, step, slicelength, err := slice.GetIndices(len(t))
 		if err != nil {
 			return nil, err
 		}
 		if step == 1 {
 			// Return a subslice since tuples are immutable
-			return t[start:stop], nil
+			return t[start : start+slicelength], nil
 		}
 		newTuple := make(Tuple, slicelength)
 		for i, j := start, 0; j < slicelength; i, j = i+step, j+1 {
